@@ -1,0 +1,11 @@
+//go:build verif
+
+// Machine-checked contracts for package csblob (comment-only; see /verif/DESIGN.md).
+
+package csblob
+
+//@ func parseSuper
+//@   property C11
+//@   nopanic
+//@   loop 0 sig "for i := 0; i < count; i++" invariant 0 <= i && i <= count && count >= 0 && len(indexes) == 8 * count && \
+//@        dataOffset == origLen - len(blob) && origLen >= len(blob) && (items == nil || allocated(items))
